@@ -717,6 +717,7 @@ class TorControlProtocol(LineOnlyReceiver):
         outstanding = [self.command] + self.commands if self.command else self.commands
         self.command = None
         self.defer = None
+        self.commands = []
         for d, cmd, cmd_arg in outstanding:
             if not d.called:
                 d.errback(
@@ -755,12 +756,12 @@ class TorControlProtocol(LineOnlyReceiver):
             return
 
         if len(self.commands):
-            self.command = self.commands.pop(0)
-            (d, cmd, cmd_arg) = self.command
+            (d, cmd, cmd_arg) = self.commands.pop(0)
 
             if self._when_disconnected.already_fired(d):
                 return
 
+            self.command = (d, cmd, cmd_arg)
             self.defer = d
 
             self.debuglog.write(cmd + b'\n')
